@@ -37,7 +37,11 @@ def partitions(tier):
     for cls in ('Server', 'ServerTls'):
         for first in ('conn1', 'conn2'):
             for second in ('service', 'conn1'):
-                ps.append(dict(name='%s-%s-%s' % (cls, first, second), cls=cls, first=first, second=second, events=b['events']))
+                if b['events'] < 5:
+                    ps.append(dict(name='%s-%s-%s' % (cls, first, second), cls=cls, first=first, second=second, events=b['events']))
+                else:       # longer histories: one partition per third event as well
+                    for third in sorted(set(SEV), key=SEV.index):
+                        ps.append(dict(name='%s-%s-%s-%s' % (cls, first, second, third), cls=cls, first=first, second=second, third=third, events=b['events']))
     for cls in ('Client', 'ClientTls'):
         ps.append(dict(name='%s-history' % cls, cls=cls, events=b['events']))
     return ps
@@ -57,7 +61,7 @@ def harness_server(sym, part):
         addrs = {'conn1': ('10.0.0.1', 4001), 'conn2': ('10.0.0.2', 4002)}
         seen = []
         did = []
-        evs = [part['first'], part['second']] + [None] * (part['events'] - 2)
+        evs = [part['first'], part['second']] + ([part['third']] if 'third' in part else []) + [None] * (part['events'] - 2 - (1 if 'third' in part else 0))
         for i, ev in enumerate(evs):
             if ev is None:
                 ev = sym.choice('ev%d' % i, SEV)
